@@ -243,6 +243,21 @@ pub fn generate(g: &mut Gen, thorough: bool) {
             g.push(super::op_line("default", &[], &[], &def, "apply", dir, &d), "model-operator-adversarial", true);
         }
     }
+    // the grid operators with every kind of grid list: present, missing, optional, null, none at all
+    for opname in ["gridshift", "deformation dt=1", "deformation raw t_epoch=2000", "deflection"] {
+        for grids in [
+            "@missing.gsb", "@missing.gsb,@null", "@null", "@null,test.datum", "missing.gsb", "@missing.datum,@alsomissing.geoid", "test.datum", "test.geoid", "test.deformation",
+            "@nosuch.datum,test.datum", "test.datum,@null", "5458.gsb", "5458_with_subgrid.gsb,@null", "test.geoid,@null", "test.deformation,@null", "test.datum,test.geoid", "test.deformation,test.datum", "", ",", "@", "@@null",
+        ] {
+            for tail in ["", " inv"] {
+                for kind in ["plain", "default"] {
+                    let def = format!("{opname} grids={grids}{tail}");
+                    let d = data(&mut g.rng, 6);
+                    g.push(case(kind, &[], &def, &d), "oracle-grid-operators", true);
+                }
+            }
+        }
+    }
     // the definitions used by the library's own tests and examples, on adversarial coordinates
     for def in &corpus {
         for _ in 0..scale {
@@ -289,8 +304,15 @@ pub fn generate(g: &mut Gen, thorough: bool) {
                 t += "+step ";
             }
             t += &format!("+proj={} ", g.rng.pick(&names));
-            for _ in 0..g.rng.below(4) {
-                t += &format!("+{}={} ", g.rng.pick(&keys), value(&mut g.rng).replace(' ', ""));
+            for _ in 0..g.rng.below(5) {
+                // PROJ's own parameter names (which `tidy_proj` rewrites) among the gamut keys
+                let k = if g.rng.chance(1, 2) { g.rng.pick(&["a", "rf", "a", "rf", "k", "ellps", "b", "f", "R", "units", "towgs84", "no_defs", "init", "k_0", "zone"]).to_string() } else { g.rng.pick(&keys).clone() };
+                let v = if g.rng.chance(1, 2) { format!("{}", g.rng.range(1, 7000000)) } else { value(&mut g.rng).replace(' ', "") };
+                if g.rng.chance(1, 8) {
+                    t += &format!("+{k} ");
+                } else {
+                    t += &format!("+{k}={v} ");
+                }
             }
             if g.rng.chance(1, 5) {
                 t += "+inv ";
@@ -302,6 +324,32 @@ pub fn generate(g: &mut Gen, thorough: bool) {
         let d = data(&mut g.rng, 3);
         g.push(case("plain", &[], &t, &d), "oracle-proj-syntax", true);
         g.push(format!("PROJ\t{}", escape(&t)), "proj-translation", true);
+    }
+    // PROJ ellipsoid spellings in every order and position (rewritten in place by `tidy_proj`)
+    for _ in 0..(80 * scale) {
+        let mut items: Vec<String> = vec![format!("+proj={}", g.rng.pick(&["merc", "tmerc", "lcc", "utm", "cart", "laea"]))];
+        let extras = ["+lat_1=30", "+lon_0=9", "+x_0=100", "+zone=32", "+k=0.9996", "+k_0=2", "+inv", "+lat_0=10"];
+        for _ in 0..g.rng.below(4) {
+            items.push(g.rng.pick(&extras).to_string());
+        }
+        let a = format!("+a={}", g.rng.pick(&["6378137", "6377397.155", "1", "x", ""]));
+        let rf = format!("+rf={}", g.rng.pick(&["298.257", "299.15", "0", "y", ""]));
+        for e in [a, rf] {
+            let at = g.rng.below(items.len() + 1);
+            items.insert(at, e);
+        }
+        if g.rng.chance(1, 5) {
+            let at = g.rng.below(items.len() + 1);
+            items.insert(at, "+ellps=intl".into());
+        }
+        if g.rng.chance(1, 5) {
+            let at = g.rng.below(items.len() + 1);
+            items.insert(at, format!("+rf={}", g.rng.range(100, 400)));
+        }
+        let t = items.join(" ");
+        let d = data(&mut g.rng, 3);
+        g.push(case("plain", &[], &t, &d), "oracle-proj-ellipsoid-spelling", true);
+        g.push(format!("PROJ\t{}", escape(&t)), "proj-ellipsoid-spelling", true);
     }
     // the tokenizer and the angular functions on anything at all: the model says what comes out
     for _ in 0..(500 * scale) {
